@@ -61,9 +61,14 @@ Load(F, V) == SumSet([f \in F |-> Width(f)], EnabledIn(F, V))
 MaxLoad(F) == MaxOf({ Load(F, V) : V \in Scopes(F) })
 Fits(F, L) == MaxLoad(F) <= L
 NoExplicitStart(F) == \A f \in F : f.fstart < 0
-\* any two conditions that can hold together are nested (the hierarchy is a tree of paths); otherwise
-\* fields of independent scopes (a=0 and b=1) cross and contiguous packing is a harder problem
+\* The hierarchy is a tree: conditions that can hold together are nested, and the fields a field depends on
+\* form a chain (each depends on the previous one).  Otherwise independent scopes cross - a field under a=0
+\* and a field under b=1, or a field under a=1 & b=1 where a and b do not depend on one another - and packing
+\* contiguous fields is a harder problem.
 NestedOnly(F) == \A f, g \in F : Compatible(f.cond, g.cond) => (f.cond \subseteq g.cond \/ g.cond \subseteq f.cond)
+ChainDeps(F) == \A g \in F : \A f1, f2 \in { f \in F : DependsOn(g, f) } :
+                    f1 = f2 \/ DependsOn(f1, f2) \/ DependsOn(f2, f1)
+TreeShaped(F) == NestedOnly(F) /\ ChainDeps(F)
 
 \* ---------------------------------------------------------------- explicit definitions
 \* bits a field is already known to occupy: its laid-out range, else its explicit start with the
